@@ -316,13 +316,98 @@ func c09Reload(c *vlib.Ctx) {
 	}
 }
 
+// c09ToleranceReload: the reload between original and replay changes the
+// tolerance of the route. A raised tolerance makes old timestamps acceptable
+// again; whatever was honoured under the old tolerance must not be honoured a
+// second time under the new one, whether the reload comes before or after the
+// instant at which the old window closed.
+func c09ToleranceReload(c *vlib.Ctx) {
+	dir := c.Scratch()
+	mk := func(tol string) string {
+		return "ingress { listen 127.0.0.1:0 }\npull_api { listen 127.0.0.2:0\n auth token raw:tok }\nadmin_api { listen 127.0.0.3:0 }\n" +
+			"/signed { queue { backend memory }\n auth hmac {\n  secret raw:topsecret\n  tolerance " + tol + "\n }\n pull { path /pull/s } }\n"
+	}
+	type step struct {
+		adv    time.Duration
+		reload string // "" = none, else the new tolerance
+		replay bool   // send the captured request again
+		others int    // other signed requests (fresh nonces, current timestamps): cleanup path
+	}
+	cases := []struct {
+		name  string
+		start string
+		steps []step
+	}{
+		{"raised_after_old_window_closed", "5m", []step{{adv: 6 * time.Minute, others: 3}, {reload: "30m"}, {adv: 4 * time.Minute, replay: true}, {adv: 19 * time.Minute, replay: true}}},
+		{"raised_before_old_window_closed", "5m", []step{{adv: time.Minute, reload: "30m"}, {adv: 9 * time.Minute, others: 3}, {replay: true}, {adv: 20 * time.Minute, others: 2, replay: true}}},
+		{"raised_replay_inside_old_window", "5m", []step{{adv: time.Minute, reload: "30m"}, {adv: time.Minute, others: 2, replay: true}}},
+		{"raised_twice", "1m", []step{{adv: 30 * time.Second, reload: "5m"}, {adv: 2 * time.Minute, others: 2, replay: true}, {reload: "1h"}, {adv: 20 * time.Minute, others: 2, replay: true}}},
+		{"lowered", "30m", []step{{adv: time.Minute, reload: "5m"}, {adv: 2 * time.Minute, others: 2, replay: true}}},
+		{"lowered_then_raised", "30m", []step{{adv: time.Minute, reload: "5m"}, {adv: 7 * time.Minute, others: 3}, {reload: "30m"}, {adv: time.Minute, replay: true}}},
+		{"raised_by_two_reloads_of_other_settings", "5m", []step{{adv: 6 * time.Minute, others: 2}, {reload: "5m"}, {reload: "20m"}, {adv: time.Minute, others: 1, replay: true}}},
+	}
+	for ci, k := range cases {
+		clock := vlib.NewVClock(c08T0)
+		a, err := l2.Start(dir, mk(k.start), nil, clock)
+		if err != nil {
+			c.Inconclusive("C09 tolerance config did not start: " + err.Error())
+			return
+		}
+		var obs []nonceObs
+		seq := 0
+		send := func(nonce string, ts int64, tag string) bool {
+			body := []byte("b-" + nonce)
+			resp := l2.Do(a.Ingress, signedReq("topsecret", "/signed", ts, nonce, body))
+			obs = append(obs, nonceObs{Nonce: nonce, TS: ts, Arrival: clock.NowNS(), Accepted: resp.Status == 202, Tag: tag})
+			return resp.Status == 202
+		}
+		t0 := c08T0.Unix()
+		if !send("CAPTURED", t0, "original") {
+			c.Inconclusive("C09 tolerance: the original request was not accepted")
+			a.Close()
+			continue
+		}
+		for si, st := range k.steps {
+			clock.Advance(st.adv)
+			if st.reload != "" {
+				_ = a.WriteConfig(mk(st.reload))
+				if !a.Reload() {
+					c.Inconclusive(fmt.Sprintf("C09 tolerance %s: reload to %s refused", k.name, st.reload))
+				}
+			}
+			for o := 0; o < st.others; o++ {
+				seq++
+				send(fmt.Sprintf("other-%d-%d", ci, seq), clock.Now().Unix(), "other")
+			}
+			if st.replay {
+				send("CAPTURED", t0, fmt.Sprintf("replay_%s_step%d", k.name, si))
+			}
+		}
+		seq++
+		freshOK := send(fmt.Sprintf("fresh-%d-%d", ci, seq), clock.Now().Unix(), "fresh_current_timestamp")
+		c.Count("evaluations", int64(len(obs)))
+		c.Count("tolerance_reload_trials", 1)
+		c.Distinct("nontrivial", "l2:tolerance:"+k.name)
+		// the captured request honoured twice is a refutation under any tolerance
+		nonceLedger(c, "L2", 0, obs, map[string]any{"kind": "tolerance_" + k.name, "start_tolerance": k.start})
+		if !freshOK {
+			c.Violation(vlib.Signature{"class": "valid_request_never_accepted", "layer": "L2", "kind": "tolerance"}, fmt.Sprintf("a freshly signed request with the current timestamp was rejected after tolerance reloads (%s)", k.name), obs)
+		}
+		if ci < 2 {
+			c.Sample(map[string]any{"tolerance_case": k.name, "observations": obs})
+		}
+		a.Close()
+	}
+}
+
 // C09: replay protection.
 func C09(c *vlib.Ctx) {
-	c.Rule("L1: ingress.HMACAuth under a virtual clock, original at ts-tol..ts+tol, replays at the same instant, +1ns, random instants, ts+tol-1ns, exactly ts+tol (twice), +1ns and beyond, with 0-5000 other nonces interleaved (cleanup path), bad-signature requests and other timestamps re-using the nonce; 16 goroutines sending identical requests at one instant (-race). L2: original, then a reload through the production path (unchanged file, changed file, two reloads, Admin management mutation), then the replay. L3 (thorough): the real binary with SIGHUP. Oracle: per-nonce acceptance ledger - for every pair of accepted requests with one nonce the later arrival must be > ts_first + tolerance. distinct_nontrivial = distinct (layer, tolerance, first-arrival offset, interleaving size / reload kind) classes.")
+	c.Rule("L1: ingress.HMACAuth under a virtual clock, original at ts-tol..ts+tol, replays at the same instant, +1ns, random instants, ts+tol-1ns, exactly ts+tol (twice), +1ns and beyond, with 0-5000 other nonces interleaved (cleanup path), bad-signature requests and other timestamps re-using the nonce; 16 goroutines sending identical requests at one instant (-race). L2: original, then a reload through the production path (unchanged file, changed file, two reloads, Admin management mutation; reloads that raise / lower the route's tolerance before or after the old window closed, with other signed traffic in between), then the replay. L3 (thorough): the real binary with SIGHUP. Oracle: per-nonce acceptance ledger - for every pair of accepted requests with one nonce the later arrival must be > ts_first + tolerance. distinct_nontrivial = distinct (layer, tolerance, first-arrival offset, interleaving size / reload kind) classes.")
 	c.Assume("the ledger is the consequence every reading of the statement shares: weaker than 'never again for the life of the process', exactly what an expiry at ts+tolerance guarantees")
 	c09L1(c)
 	c09Concurrent(c)
 	c09Reload(c)
+	c09ToleranceReload(c)
 	c09L3(c)
 	c.CollectRaces()
 }
